@@ -619,3 +619,70 @@ func diffAdmit(g, l AdmitOut, proj string) []string {
 	}
 	return d
 }
+
+// ---- history: the requests of a group through ONE controller
+
+// histDeps: the dependencies of a long-lived controller; what they answer is switched per request (sequential use only), so
+// that everything a response can legitimately depend on is the request's own, and only the controller is shared
+type histDeps struct {
+	ns     fakeNS
+	lister *fakeLister
+	ev     *evWrap
+	rec    *recorder
+}
+
+func (h *histDeps) GetNamespace(ctx context.Context, name string) (*corev1.Namespace, error) {
+	return h.ns.GetNamespace(ctx, name)
+}
+func (h *histDeps) ListPods(ctx context.Context, ns string) ([]*corev1.Pod, error) {
+	return h.lister.ListPods(ctx, ns)
+}
+func (h *histDeps) EvaluatePod(lv api.LevelVersion, m *metav1.ObjectMeta, s *corev1.PodSpec) []policy.CheckResult {
+	return h.ev.EvaluatePod(lv, m, s)
+}
+func (h *histDeps) RecordEvaluation(d metrics.Decision, lv api.LevelVersion, m metrics.Mode, a api.Attributes) {
+	h.rec.RecordEvaluation(d, lv, m, a)
+}
+func (h *histDeps) RecordExemption(a api.Attributes)     { h.rec.RecordExemption(a) }
+func (h *histDeps) RecordError(f bool, a api.Attributes) { h.rec.RecordError(f, a) }
+
+// runHistory sends the group's requests, in the given order, to one controller built for the group's configuration and
+// returns each response (indexed like the group)
+func runHistory(group []*AdmitCase, order []int) []AdmitOut {
+	h := &histDeps{}
+	lead := group[0]
+	adm := &admission.Admission{
+		Configuration: &admissionapi.PodSecurityConfiguration{Defaults: lead.Defaults,
+			Exemptions: admissionapi.PodSecurityExemptions{Namespaces: lead.ExNS, Usernames: lead.ExUsers, RuntimeClasses: lead.ExRC}},
+		Evaluator: h, Metrics: h, PodSpecExtractor: admission.DefaultPodSpecExtractor{}, NamespaceGetter: h, PodLister: h,
+	}
+	if err := adm.CompleteConfiguration(); err != nil {
+		panic(err)
+	}
+	outs := make([]AdmitOut, len(group))
+	for _, i := range order {
+		a := group[i]
+		func() {
+			ctx := context.Background()
+			var cancel context.CancelFunc
+			if a.Remaining != 0 {
+				ctx, cancel = context.WithTimeout(ctx, a.Remaining)
+			} else {
+				ctx, cancel = context.WithCancel(ctx)
+			}
+			defer cancel()
+			h.ev = &evWrap{syn: a.Syn, salt: a.Salt, real: realEvaluator, cancelAt: a.ExpireAfter, cancel: cancel}
+			h.rec = &recorder{}
+			h.lister = &fakeLister{pods: a.Pods, err: a.ListErr}
+			h.ns = fakeNS{labels: a.NSLabels, err: a.NSErr, kind: a.NSErrKind, cancel: cancel}
+			defer func() {
+				if r := recover(); r != nil {
+					outs[i].Panic = fmt.Sprint(r)
+				}
+			}()
+			resp := adm.Validate(ctx, a.attributes())
+			outs[i] = projectResponse(resp, h.rec.ev, h.ev.calls, h.lister)
+		}()
+	}
+	return outs
+}
